@@ -304,10 +304,61 @@ Section Main.
 Variable pmatch : bytes -> bytes -> bool.
 Variable c : cfg.
 Notation V := (keep_incr pmatch c).
-Notation cnode := (copy_node pmatch c).
-Notation cforest := (copy_forest pmatch c).
+Notation cnode := (copy_node pmatch c false).
+Notation cforest := (copy_forest pmatch c false).
 
 (* ---------- unfolding ---------- *)
+Lemma copy_node_eq_r repl dir name st0 ct kids pinc pexc S fs :
+  copy_node pmatch c repl dir (Node name st0 ct kids) pinc pexc S fs =
+    let p := child_path dir name in
+    let st := set_path st0 p in
+    let ri := sel_inc pmatch c p pinc in
+    let re := sel_exc pmatch c p pexc in
+    let include := fst ri && negb (fst re) in
+    let it := {| l_st := st; l_ct := ct; l_sel := true |} in
+    match (if include then create_parents S fs else (fs, S, [], None)) with
+    | (fs1, S1, em1, Some e) => (fs1, S1, em1, Some e)
+    | (fs0, S1, em1, None) =>
+      let fs1 := if repl && include then remove_target p (st_is_dir st0) (fs p) fs0 else fs0 in
+      if st_is_dir st0 then
+        match (if include then copy_dir_only dir p st fs1 else (fs1, None, false)) with
+        | (fs2, Some e, _) => (fs2, S1, em1, Some e)
+        | (fs2, None, _) =>
+          let d := {| pd_st := st; pd_ct := ct; pd_dir := dir; pd_copied := include |} in
+          let self := if include then [it] else [] in
+          let '(fs3, S3, em3, e3) := copy_forest pmatch c repl p kids (snd ri) (snd re) (S1 ++ [d]) fs2 in
+          match e3 with
+          | Some e => (fs3, removelast S3, em1 ++ self ++ em3, Some e)
+          | None => ((if include then copy_meta st p fs3 else fs3), removelast S3, em1 ++ self ++ em3, None)
+          end
+        end
+      else if negb include then (fs1, S1, em1, None)
+      else
+        match (match fs1 p with
+               | Some e => if e_dir e then None else Some (fdel p fs1)
+               | None => Some fs1
+               end) with
+        | None => (fs1, S1, em1, Some ENondirOverDir)
+        | Some fs2 =>
+          if parent_ok dir fs2 then (fput p (st, ct) fs2, S1, em1 ++ [it], None)
+          else (fs2, S1, em1, Some ENoParent)
+        end
+    end.
+Proof.
+  cbn [copy_node]. cbv zeta.
+  destruct (if fst (sel_inc pmatch c (child_path dir name) pinc) && negb (fst (sel_exc pmatch c (child_path dir name) pexc))
+            then create_parents S fs else (fs, S, [], None)) as [[[fs1 S1] em1] [e|]]; auto.
+  destruct (st_is_dir st0); auto.
+  match goal with |- context [if ?b then copy_dir_only ?a1 ?a2 ?a3 ?a4 else ?z] =>
+    destruct (if b then copy_dir_only a1 a2 a3 a4 else z) as [[fs2 [e|]] cr]; auto end.
+  match goal with |- context [?f kids (S1 ++ _) fs2] =>
+    assert (E : forall l S0 f0, f l S0 f0 = copy_forest pmatch c repl (child_path dir name) l
+                (snd (sel_inc pmatch c (child_path dir name) pinc)) (snd (sel_exc pmatch c (child_path dir name) pexc)) S0 f0) end.
+  { induction l as [|k r IH]; intros S0 f0; [reflexivity|]. cbn [copy_forest].
+    destruct (copy_node pmatch c repl (child_path dir name) k _ _ S0 f0) as [[[f' S'] em] [e|]]; auto. rewrite IH. reflexivity. }
+  rewrite E. reflexivity.
+Qed.
+
 Lemma copy_node_eq dir name st0 ct kids pinc pexc S fs :
   cnode dir (Node name st0 ct kids) pinc pexc S fs =
     let p := child_path dir name in
@@ -343,21 +394,7 @@ Lemma copy_node_eq dir name st0 ct kids pinc pexc S fs :
           else (fs2, S1, em1, Some ENoParent)
         end
     end.
-Proof.
-  cbn [copy_node]. cbv zeta.
-  destruct (if fst (sel_inc pmatch c (child_path dir name) pinc) && negb (fst (sel_exc pmatch c (child_path dir name) pexc))
-            then create_parents S fs else (fs, S, [], None)) as [[[fs1 S1] em1] [e|]]; auto.
-  destruct (st_is_dir st0); auto.
-  destruct (if fst (sel_inc pmatch c (child_path dir name) pinc) && negb (fst (sel_exc pmatch c (child_path dir name) pexc))
-            then copy_dir_only dir (child_path dir name) (set_path st0 (child_path dir name)) fs1 else (fs1, None, false))
-    as [[fs2 [e|]] cr]; auto.
-  match goal with |- context [?f kids (S1 ++ _) fs2] =>
-    assert (E : forall l S0 f0, f l S0 f0 = cforest (child_path dir name) l
-                (snd (sel_inc pmatch c (child_path dir name) pinc)) (snd (sel_exc pmatch c (child_path dir name) pexc)) S0 f0) end.
-  { induction l as [|k r IH]; intros S0 f0; [reflexivity|]. cbn [copy_forest].
-    destruct (cnode (child_path dir name) k _ _ S0 f0) as [[[f' S'] em] [e|]]; auto. rewrite IH. reflexivity. }
-  rewrite E. reflexivity.
-Qed.
+Proof. exact (copy_node_eq_r false dir name st0 ct kids pinc pexc S fs). Qed.
 
 (* ---------- the verdict the copier computes = keep_incr ---------- *)
 Definition info_ok (dir : bytes) (pinc pexc : list bool) : Prop :=
@@ -536,11 +573,11 @@ Qed.
 
 Theorem copy_dir_top_spec rootst view fs0 fs' log :
   wf_tree view = true ->
-  copy_dir_top pmatch c rootst view fs0 = (fs', log, None) ->
+  copy_dir_top pmatch c false rootst view fs0 = (fs', log, None) ->
   log = flat_items V view /\ forall q, q <> [] -> fs' q = spec_ent log fs0 q.
 Proof.
   intros Hwf H. destruct (wf_tree_parts view Hwf) as [Hw HF].
-  unfold copy_dir_top in H.
+  unfold copy_dir_top in H. cbv beta iota zeta in H.
   assert (G : forall fs1 fs2 S' em, cforest [] view [] [] [] fs1 = (fs2, S', em, None) ->
               em = flat_items V view /\ forall q, fs2 q = fold_left (step q) em (fs1 q)).
   { intros fs1 fs2 S' em E.
